@@ -14,9 +14,9 @@ from absn import *
 import common as C
 
 from polymath import Polynomial
-ITEM = {'F': (), 'I': (), 'B': (), 'P': (2,), 'V': (3,), 'M2': (2, 2), 'M3': (3, 3), 'Y': (4,)}
-CLS = {'F': Scalar, 'I': Scalar, 'B': Boolean, 'P': Pair, 'V': Vector3, 'M2': Matrix, 'M3': Matrix, 'Y': Polynomial}
-DTYPE = {'F': 'float64', 'I': 'int64', 'B': 'bool', 'P': 'int64', 'V': 'float64', 'M2': 'float64', 'M3': 'float64',
+ITEM = {'F': (), 'I': (), 'B': (), 'P': (2,), 'V': (3,), 'Q': (2,), 'M2': (2, 2), 'M3': (3, 3), 'Y': (4,)}
+CLS = {'F': Scalar, 'I': Scalar, 'B': Boolean, 'P': Pair, 'V': Vector3, 'Q': Pair, 'M2': Matrix, 'M3': Matrix, 'Y': Polynomial}
+DTYPE = {'F': 'float64', 'I': 'int64', 'B': 'bool', 'P': 'int64', 'V': 'float64', 'Q': 'float64', 'M2': 'float64', 'M3': 'float64',
          'Y': 'float64'}
 UNITS = {None: None, 'km': Units.KM, 's': Units.SECONDS, 'rad': Units.RAD, 'km2': Units.KM ** 2}
 
@@ -210,6 +210,24 @@ BINARYP = {
     'getitem': lambda x, i, pattern: x[_idx(pattern, i)],
     'where': lambda a, b, _: a.mask_where(b.as_mask_where_nonzero_or_masked()),
 }
+# several operands AND parameters: name -> f(operands..., *params)
+MULTIP = {
+    'clipc_lu': lambda x, lo, hi, axis, rm: x.clip_component(axis, lo, hi, remask=rm),
+    'clipc_l': lambda x, lo, axis, rm: x.clip_component(axis, lo, None, remask=rm),
+    'clipc_u': lambda x, hi, axis, rm: x.clip_component(axis, None, hi, remask=rm),
+    'clip_lu': lambda x, lo, hi, rm, inc: x.clip(lo, hi, remask=rm, inclusive=inc),
+    'clip_l': lambda x, lo, rm: x.clip(lo, None, remask=rm),
+    'clip_u': lambda x, hi, rm, inc: x.clip(None, hi, remask=rm, inclusive=inc),
+    'clip2d_lu': lambda x, lo, hi, rm: x.clip2d(lo, hi, remask=rm),
+    'clip2d_l': lambda x, lo, rm: x.clip2d(lo, None, remask=rm),
+    'clip2d_u': lambda x, hi, rm: x.clip2d(None, hi, remask=rm),
+    'solve_quadratic_am': lambda a, b, c: Scalar.solve_quadratic(a, b, c, include_antimask=True),
+    'solve_quadratic_all': lambda a, b, c: Scalar.solve_quadratic(a, b, c),
+    'mw_between_q': lambda x, lo, hi, ends, rm: x.mask_where_between(lo, hi, mask_endpoints=ends, remask=rm),
+    'mw_outside_q': lambda x, lo, hi, ends, rm: x.mask_where_outside(lo, hi, mask_endpoints=ends, remask=rm),
+    'mw_ge_q': lambda x, lim, rm: x.mask_where_ge(lim, remask=rm),
+    'int_top': lambda x, top, rm, cl: x.int(top=None, remask=rm, clip=cl),
+}
 TERNARY = {
     'stack3': lambda a, b, c: Qube.stack(a, b, c),
     'maximum3': lambda a, b, c: Scalar.maximum(a, b, c),
@@ -228,6 +246,8 @@ def apply_op(name, params, args):
         return BINARY[name](*args)
     if name in BINARYP:
         return BINARYP[name](args[0], args[1], *params)
+    if name in MULTIP:
+        return MULTIP[name](*args, *params)
     if name in TERNARY:
         return TERNARY[name](*args)
     raise KeyError(name)
